@@ -245,6 +245,14 @@ theorem mpz_tdiv_r_alloc_safe (s : St) (r n d : Nat) (hs : s.ok = true)
         rw [this])
   exact ⟨s', e, R.safe E.1, by rw [R.view]; exact E.2⟩
 
+/-- … and NECESSARY for mpz_tdiv_r too: requesting `dl - 1` limbs clears `ok` (mpn_tdiv_qr's `dl` remainder limbs leave the block)
+    in every state in which rem's block has fewer than `dl` limbs, rem is neither operand and `nl ≥ dl`. -/
+theorem mpz_tdiv_r_request_necessary (s : St) (r n d : Nat) (hr : OWF (s.h r)) (hd0 : (s.h d).size ≠ 0)
+    (hnr : n ≠ r) (hdr : d ≠ r) (hge : (s.h d).size.natAbs ≤ (s.h n).size.natAbs)
+    (hsmall : (s.h r).buf.alloc < (s.h d).size.natAbs) :
+    ∃ s', tdiv_r 1 s r n d = some s' ∧ s'.ok = false :=
+  tdiv_r_request_necessary s r n d hr hd0 hnr hdr hge hsmall
+
 -- (B^3-1) mod (B+1) = B - 1 into the one-limb variable (block grown to dl = 2), in place on the numerator and the denominator
 example : (mpz_tdiv_r ex5 0 1 2).map (fun s => (s.ok, view (s.h 0))) = some (true, ⟨2, 1, [B - 1]⟩) := by decide
 example : (mpz_tdiv_r ex5 1 1 2).map (fun s => (s.ok, view (s.h 1))) = some (true, ⟨3, 1, [B - 1]⟩) := by decide
